@@ -32,7 +32,7 @@ RULE = ("(a) generalized Sample descriptions: channels {1,2 + corners 0,3,65535,
         "x 0..8 loop regions with corner start/end/play_cnt/duration/type x PCM length {0..5,7,8,4095..4097,random <= 9000} split into random blocks; "
         "(a2) the same headers over real data streams: mono LE/BE, interleaved stereo, split stereo, wrong channel count, no stream, odd lengths; "
         "(b) all 65536 AKAI (semitone, cents) byte pairs through get_smpl_chunk_data, and AKAI images through the CLI: every root-key byte, every semitone byte, every cents byte, random triples, "
-        "negative-unity-note triples one per image, loop tables with corner values; (c) cue+bin CDDA images whose bin length runs over every residue mod 4. "
+        "negative-unity-note triples one per image, loop tables with corner values, image files cut at odd and even offsets inside a mono sample's PCM (around sector boundaries); (c) cue+bin CDDA images whose bin length runs over every residue mod 4. "
         "Non-trivial = the sample carries a smpl chunk, >= 1 frame of PCM or a failing field; distinct = distinct (header, PCM length) / (note, semi, cents, loops)")
 
 LIMB = 1 << 30
@@ -589,6 +589,41 @@ def w_akai_stereo(pid, tier, seed, job):
     return ctx.dump()
 
 
+def w_akai_truncated(pid, tier, seed, job):
+    """Image files cut inside the PCM data of a mono sample (odd and even offsets, around sector boundaries): whatever export still
+    reports must be a well-formed WAV with whole frames."""
+    ctx = F.Ctx(pid, tier, seed)
+    rng = random.Random(job)
+    files = []
+    for k in range(rng.randint(1, 3)):
+        nw = rng.choice([300, 4096, 5000, 9000, 12288 - 70])
+        files.append(AW.SampleFile(name="S%d" % k, pcm=struct.pack("<%dh" % nw, *[((k + 1) * 7 + i * 3) % 30000 for i in range(nw)]),
+                                   rate=rng.choice([22050, 44100]), note=60))
+    parts = [AW.Partition([AW.Volume("VOL", files)], size_sectors=40)]
+    img = AW.image_bytes(parts)
+    cuts = set()
+    for f in files:
+        d0 = f.sectors[0] * 8192 + 140
+        dlen = len(f.pcm)
+        for off in (1, 2, 3, 4, 5, 101, 8192 - 140 - 1, 8192 - 140, 8192 - 140 + 1, 8192 - 140 + 2, dlen - 1, dlen - 2, dlen - 3,
+                    rng.randrange(1, dlen) | 1, rng.randrange(2, dlen) & ~1, rng.randrange(1, dlen)):
+            if 0 < off < dlen:
+                cuts.add((d0 + off, f.name, off))
+    for cut, fname, off in sorted(cuts):
+        with R.TempImage(img[:cut]) as path:
+            r, tree, reported = R.export(path)
+        case = {"akai_truncated": True, "cut": cut, "inside_data_of": fname, "data_offset": off, "odd": bool(off % 2), "words": [f.n_words for f in files], "seed": job}
+        ctx.count("akai_truncated_export", (job, cut), nontrivial=True)
+        if not ctx.require("export of a truncated image finishes without exception", case, r.exc is None, r.exc_name):
+            continue
+        ctx.require("every reported file exists", case, all(p in tree for p in reported), reported)
+        for pth in reported:
+            if pth in tree:
+                ok, why = oracle_wav(tree[pth], 1)
+                ctx.require("reported file is a well-formed RIFF/WAVE PCM file (truncated AKAI image through export)", dict(case, file=pth), ok, why)
+    return ctx.dump()
+
+
 # ---------------------------------------------------------------- (c) CDDA
 def w_cdda(pid, tier, seed, job):
     ctx = F.Ctx(pid, tier, seed)
@@ -741,6 +776,7 @@ def run(ctx):
     F.pmap(ctx, w_pitch, [semis[i:i + 8] for i in range(0, 256, 8)])
     F.pmap(ctx, w_akai, akai_jobs(ctx))
     F.pmap(ctx, w_akai_stereo, [ctx.seed * 9257 + i for i in range(16 if ctx.quick else 200)])
+    F.pmap(ctx, w_akai_truncated, [ctx.seed * 9341 + i for i in range(8 if ctx.quick else 64)])
     F.pmap(ctx, w_cdda, [ctx.seed * 9209 + i for i in range(32 if ctx.quick else 400)])
     F.pmap(ctx, w_malformed, [ctx.seed * 9311 + i for i in range(16 if ctx.quick else 64)])
     ctx.note("Roland S-7xx images are not generated at image level (no independent S-7xx writer in the harness yet); their Sample shape "
